@@ -42,6 +42,7 @@ type pkgInfo struct {
 	files      map[string]*ast.File
 	globals    map[string]string // package-level var name -> singleton type name ("" if unknown)
 	singletons map[string]bool   // type names that are the type of some package-level var
+	syncVars   map[string]bool   // package-level vars whose declared type is built from sync / sync/atomic types
 }
 
 type siteTab struct {
@@ -86,7 +87,7 @@ func main() {
 	var globalsIndex = map[string][]string{}
 	for _, d := range dirs {
 		fset := token.NewFileSet()
-		pk := &pkgInfo{dir: d, files: map[string]*ast.File{}, globals: map[string]string{}, singletons: map[string]bool{}}
+		pk := &pkgInfo{dir: d, files: map[string]*ast.File{}, globals: map[string]string{}, singletons: map[string]bool{}, syncVars: map[string]bool{}}
 		ents, _ := os.ReadDir(d)
 		for _, e := range ents {
 			n := e.Name()
@@ -172,6 +173,23 @@ func typeName(e ast.Expr) string {
 	return ""
 }
 
+// mentionsSync: the (type) expression is built from sync.X or atomic.X types, e.g. [N]atomic.Pointer[T], sync.Map, sync.Pool{…}.
+func mentionsSync(e ast.Expr) bool {
+	found := false
+	ast.Inspect(e, func(n ast.Node) bool {
+		if _, ok := n.(*ast.FuncLit); ok {
+			return false
+		}
+		if sel, ok := n.(*ast.SelectorExpr); ok {
+			if id, ok := sel.X.(*ast.Ident); ok && (id.Name == "sync" || id.Name == "atomic") {
+				found = true
+			}
+		}
+		return !found
+	})
+	return found
+}
+
 func collectGlobals(pk *pkgInfo) {
 	structs := map[string]bool{}
 	for _, f := range pk.files {
@@ -191,6 +209,9 @@ func collectGlobals(pk *pkgInfo) {
 						continue
 					}
 					for i, n := range s.Names {
+						if (s.Type != nil && mentionsSync(s.Type)) || (i < len(s.Values) && mentionsSync(s.Values[i])) {
+							pk.syncVars[n.Name] = true
+						}
 						tn := ""
 						if s.Type != nil {
 							tn = typeName(s.Type)
@@ -213,19 +234,21 @@ func collectGlobals(pk *pkgInfo) {
 }
 
 type instr struct {
-	pk        *pkgInfo
-	fset      *token.FileSet
-	fine      bool
-	visible   bool
-	sawSync   bool // the statement being analysed calls a (non-lock) sync-API method on package-level state
-	ticksOnly bool // only loop-iteration counters: no scheduling points, no access events, "sync" left alone
-	sites     *siteTab
-	recv      string // receiver name of the current method if its type is a singleton type
-	recvT     string
-	local     map[string]bool // names shadowing globals in the current function (params / := / var)
+	pk         *pkgInfo
+	fset       *token.FileSet
+	fine       bool
+	visible    bool
+	atomicName string // local name of the sync/atomic import in the current file ("" if not imported)
+	sawSync    bool   // the statement being analysed calls a (non-lock) sync-API method on package-level state
+	ticksOnly  bool   // only loop-iteration counters: no scheduling points, no access events, "sync" left alone
+	sites      *siteTab
+	recv       string // receiver name of the current method if its type is a singleton type
+	recvT      string
+	local      map[string]bool // names shadowing globals in the current function (params / := / var)
 }
 
 func (in *instr) file(f *ast.File) {
+	in.atomicName = ""
 	// imports
 	needVrt := false
 	for _, is := range f.Imports {
@@ -244,6 +267,7 @@ func (in *instr) file(f *ast.File) {
 			if is.Name == nil {
 				is.Name = ast.NewIdent("atomic")
 			}
+			in.atomicName = is.Name.Name
 		}
 	}
 	for _, d := range f.Decls {
@@ -346,6 +370,10 @@ func (in *instr) path(e ast.Expr) string {
 			}
 			return ""
 		}
+		if in.pk.syncVars[x.Name] {
+			in.sawSync = true // an operation on a package-level synchronisation object: scheduling point, no data-access event
+			return ""
+		}
 		if tn, ok := in.pk.globals[x.Name]; ok {
 			if tn != "" {
 				return in.pk.name + "." + tn // singleton: type-qualified location shared with receiver accesses
@@ -402,6 +430,18 @@ func (in *instr) accesses(s ast.Stmt) []acc {
 				return false // instrumented separately
 			case *ast.CallExpr:
 				if sel, ok := x.Fun.(*ast.SelectorExpr); ok {
+					if id, isID := sel.X.(*ast.Ident); isID && in.atomicName != "" && id.Name == in.atomicName && !in.local[id.Name] {
+						// atomic.LoadX(&v) / StoreX / AddX / CompareAndSwapX: a synchronisation operation on v, not a plain
+						// access — no data-access event for the addressed operand, but a scheduling point
+						in.sawSync = true
+						for _, a := range x.Args {
+							if u, isU := a.(*ast.UnaryExpr); isU && u.Op == token.AND {
+								continue
+							}
+							reads(a)
+						}
+						return false
+					}
 					if p := in.path(sel.X); p != "" {
 						if !syncAPI[sel.Sel.Name] {
 							add(p, false)
